@@ -13,7 +13,7 @@ open Foca Foca.C07
     updates about the cluster's identities (`CalmInv`), in a cluster whose identities have pairwise different
     addresses, makes any call of a fault-free run (`CalmOp`): a datagram or a batch carrying only Alive claims about
     cluster identities under a header from a cluster identity that is not a TurnUndead; any timer except a suspicion
-    timeout, the probe timer only after an answered round (`RoundAnswered`); `announce`, `gossip`, `broadcast`,
+    timeout, a current probe timer only after an answered round (`RoundAnswered`); `announce`, `gossip`, `broadcast`,
     `add_broadcast`, `set_config`. Then — whatever the bytes, the RNG draws, the configuration — afterwards it
     still holds only Alive records and updates, every datagram it sent carries only Alive claims about cluster
     identities and is not a TurnUndead, and it scheduled no suspicion timer. So a record turns Suspect or Down only
@@ -33,7 +33,7 @@ include hl hhdr hdist
     datagrams delivered late, more than once, to the wrong instance or never; timers firing in any order, however
     late, more than once; `announce`, `gossip`, `broadcast`, `add_broadcast`, `set_config` at any time; any RNG
     draws; a codec that reads back what it wrote (true of the models of all four codecs). If every probe timer that
-    fires finds its previous round answered (`RoundAnswered`: the target's Ack or a forwarded Ack arrived in time —
+    fires while current (token of the instance's epoch, instance connected) finds its previous round answered (`RoundAnswered`: the target's Ack or a forwarded Ack arrived in time —
     the one premise that depends on latencies and clocks, explored by the simulator), then at every moment: every
     record of every instance is Alive, and is about an identity of the cluster; no suspicion timer is pending
     anywhere; and every datagram on the wire is a non-TurnUndead datagram from a cluster identity whose updates
@@ -106,5 +106,23 @@ example : ∃ n, CalmReach C08H.exEnv [⟨1, 0⟩, ⟨2, 0⟩] n ∧ n.nodes.map
   have h2 := CalmReach.deliver (E := C08H.exEnv) (ids := [⟨1, 0⟩, ⟨2, 0⟩]) 1 exS2 _ ⟨2, 0⟩
     [0, 1, 0, 0, 0, 0, 0, 2, 0, 0, 6] ⟨[.idx 0], [⟨[], []⟩]⟩ _ _ _ h1 rfl (by decide) rfl
   exact ⟨_, h2, by decide⟩
+
+/-! … and further: instance 2's probe timer fires (first round: nothing to suspect), its Ping — carrying the Alive
+   update about instance 1 — is delivered, instance 1 answers with an Ack: both now list each other as Alive, and
+   the cluster is still one the theorem covers -/
+omit hl hhdr hdist in
+set_option maxRecDepth 20000 in
+example : ∃ n, CalmReach C08H.exEnv [⟨1, 0⟩, ⟨2, 0⟩] n ∧
+    n.nodes.map (fun s => (s.probe.number, s.ms.map (·.st))) = [(0, [.alive]), (1, [.alive])] := by
+  have h1 := CalmReach.api (E := C08H.exEnv) (ids := [⟨1, 0⟩, ⟨2, 0⟩]) 0 exS1 _ (.announce ⟨2, 0⟩) ⟨[], [⟨[], []⟩]⟩ _ _ _
+    exInit rfl rfl (by intro d hd; cases hd; simp [IdWire]) rfl
+  have h2 := CalmReach.deliver (E := C08H.exEnv) (ids := [⟨1, 0⟩, ⟨2, 0⟩]) 1 exS2 _ ⟨2, 0⟩
+    [0, 1, 0, 0, 0, 0, 0, 2, 0, 0, 6] ⟨[.idx 0], [⟨[], []⟩]⟩ _ _ _ h1 rfl (by decide) rfl
+  have h3 := CalmReach.fire (E := C08H.exEnv) (ids := [⟨1, 0⟩, ⟨2, 0⟩]) 1 _ _ (.probe 0)
+    ⟨[.perm [0]], [⟨[[0, 1, 0, 0, 0, 0, 0]], []⟩]⟩ _ _ _ h2 rfl (by decide) (by intro tok _ _ _ _; rfl) rfl
+  have h4 := CalmReach.deliver (E := C08H.exEnv) (ids := [⟨1, 0⟩, ⟨2, 0⟩]) 0 _ _ ⟨1, 0⟩
+    [0, 2, 0, 0, 0, 0, 0, 1, 0, 0, 0, 1, 0, 1, 0, 1, 0, 0, 0, 0, 0] ⟨[.idx 0], [⟨[[0, 2, 0, 0, 0, 0, 0]], []⟩]⟩ _ _ _
+    h3 rfl (by decide) rfl
+  exact ⟨_, h4, by decide⟩
 
 end Foca.C02S
